@@ -466,3 +466,186 @@ def camp_c07(rnd, tier):
         o = b.newb(kind, "default")
         bit_rs_queries(b, o, Seqn.from_values([]), rnd, rank=False, select0=(kind == "DA1"))
     return b
+
+
+# ------------------------------------------------------------------ C08 bit vectors under histories
+
+
+def word_of(rnd, length, style=None):
+    """a u64 given as the list of its set bit positions, all below `length`"""
+    if length == 0:
+        return []
+    style = style or rnd.choice(["zero", "ones", "alt", "rand", "one"])
+    if style == "zero":
+        return []
+    if style == "ones":
+        return list(range(length))
+    if style == "alt":
+        return list(range(rnd.randrange(2), length, 2))
+    if style == "one":
+        return [rnd.randrange(length)]
+    return [i for i in range(length) if rnd.random() < 0.5]
+
+
+def get_bits_args(n, rnd):
+    starts = set([0, 1, 62, 63, 64, 65, 447, 448, 449, 511, 512, 513])
+    for L in (1, 2, 63, 64):
+        starts.update([n - L - 1, n - L, n - L + 1])
+    starts.update(rnd.randrange(0, n + 1) for _ in range(6))
+    pairs = []
+    for st in sorted(x for x in starts if 0 <= x <= n + 1):
+        for L in (1, 2, 3, 31, 63, 64, rnd.randrange(1, 65)):
+            pairs.append([st, L])
+    # exactly up to the end, for every length
+    for L in range(1, 65):
+        if n - L >= 0:
+            pairs.append([n - L, L])
+    pairs += [[0, 0], [0, 65], [1, 200], [n, 1], [n + 1, 1], [-1, 1], [-5, 64], [-7, 64], [0, -1], [3, -2]]
+    return pairs
+
+
+def bvm_observe(b, o, bits, rnd, kind="BVM", light=False):
+    n = len(bits)
+    b.meta(o)
+    pos = position_args(n, rnd=rnd, k=10, huge=(-1, -2))
+    if n <= 130:
+        pos = clip_args(list(range(0, n + 3)) + [-1, -2])
+    b.qg(o, "get", [], pos)
+    if kind in ("BV", "BVM"):
+        pairs = get_bits_args(n, rnd)
+        if light:
+            pairs = rnd.sample(pairs, min(40, len(pairs)))
+        b.qg(o, "get_bits", [], pairs)
+        nw = (n + 63) // 64
+        b.qg(o, "get_word", [], list(range(nw)))
+        if n > 0:
+            lines = (n + 511) // 512
+            pad = [w for w in range(nw, lines * 8)][:3]
+            if pad:
+                b.qg(o, "get_word", [], pad)
+        if n <= 700 and not light:
+            b.ith(o, "iter", "n" * (n + 2) + "l")
+            b.ith(o, "iter", "".join(rnd.choice("nnl") for _ in range(min(n + 4, 40))))
+            b.ith(o, "ones", "n" * (sum(bits) + 2))
+            b.ith(o, "zeros", "n" * (n - sum(bits) + 2))
+        for p in [0, 1, 63, 64, 65, 511, 512, n - 1, n, n + 1, n + 64, rnd.randrange(0, n + 2), -1]:
+            if p >= -1:
+                b.ith(o, rnd.choice(["ones_with_pos", "zeros_with_pos"]), "n" * rnd.choice([3, 9, 70]), pos=p)
+
+
+def bvm_history(b, rnd, nops, tier):
+    """a random history on a fresh BitVectorMut, mirrored on a python list"""
+    start = rnd.choice(["bvm_new", "default", "with_capacity", "with_zeros", "bools", "positions"])
+    bits = []
+    if start == "with_zeros":
+        n = rnd.choice([0, 1, 63, 64, 65, 511, 512, 513, 1000])
+        o = b.newb("BVM", "with_zeros", n=n)
+        bits = [0] * n
+    elif start == "with_capacity":
+        o = b.newb("BVM", "with_capacity", n=rnd.choice([0, 1, 64, 1000]))
+    elif start == "bools":
+        bits = rand_seq(rnd, rnd.choice([0, 1, 63, 64, 65, 500, 512, 513]), [0, 1])
+        o = b.newb("BVM", "bools", Seqn.from_values(bits))
+    elif start == "positions":
+        bits = rand_seq(rnd, rnd.choice([1, 64, 65, 513]), [0, 1]) + [1]
+        o = b.newb("BVM", "positions", Seqn.from_values(bits))
+    else:
+        o = b.newb("BVM", start)
+    for step in range(nops):
+        n = len(bits)
+        op = rnd.choice(["push", "push", "append_bits", "append_bits", "extend_with_zeros", "set", "set_bits", "set_bits",
+                         "extend_bools", "extend_positions", "roundtrip", "clone", "collect"])
+        if op == "push":
+            for _ in range(rnd.choice([1, 1, 3, 70])):
+                v = rnd.randrange(2)
+                b.mut(o, "push", a=[v])
+                bits.append(v)
+        elif op == "append_bits":
+            L = rnd.choice([0, 1, 3, 13, 63, 64])
+            w = word_of(rnd, L)
+            b.mut(o, "append_bits", a=[L], w=w)
+            bits += [1 if i in set(w) else 0 for i in range(L)]
+        elif op == "extend_with_zeros":
+            k = rnd.choice([0, 1, 2, 63, 64, 65, 511, 512, 513])
+            b.mut(o, "extend_with_zeros", a=[k])
+            bits += [0] * k
+        elif op == "set" and n > 0:
+            for _ in range(rnd.choice([1, 4])):
+                i = rnd.choice([0, n - 1, rnd.randrange(n), (n // 64) * 64 - 1 if n >= 64 else 0, min(n - 1, 511), min(n - 1, 512)])
+                v = rnd.randrange(2)
+                b.mut(o, "set", a=[i, v])
+                bits[i] = v
+        elif op == "set_bits" and n > 0:
+            L = rnd.choice([0, 1, 2, 13, 63, 64])
+            L = min(L, n)
+            cands = [0, n - L, rnd.randrange(0, n - L + 1)]
+            for c in (64, 512):
+                if c - 3 >= 0 and c - 3 + L <= n:
+                    cands.append(c - 3)
+            i = rnd.choice(cands)
+            w = word_of(rnd, L)
+            b.mut(o, "set_bits", a=[i, L], w=w)
+            ws = set(w)
+            for t in range(L):
+                bits[i + t] = 1 if t in ws else 0
+        elif op == "extend_bools":
+            e = rand_seq(rnd, rnd.choice([0, 1, 5, 64, 130]), [0, 1])
+            b.mut(o, "extend_bools", bits=e)
+            bits += e
+        elif op == "extend_positions":
+            base = rnd.choice([n, n, n + 1, n + 70, max(0, n - 5)])
+            k = rnd.choice([0, 1, 3, 10])
+            ps = sorted(set(base + rnd.randrange(0, 200) for _ in range(k)))
+            b.mut(o, "extend_positions", pos=ps)
+            if ps:
+                if ps[-1] + 1 > len(bits):
+                    bits += [0] * (ps[-1] + 1 - len(bits))
+                for p in ps:
+                    bits[p] = 1
+        elif op == "roundtrip":
+            bv = b.conv(o, "into_bv", keep=0)
+            bvm_observe(b, bv, bits, rnd, kind="BV", light=True)
+            o = b.conv(bv, "into_bvm", keep=0)
+        elif op == "clone":
+            c = b.conv(o, "clone")
+            b.eq(o, c)
+            bvm_observe(b, c, bits, rnd, light=True)
+            b.drop(c)
+        elif op == "collect":
+            c = b.conv(o, "collect_iter")
+            b.eq(o, c)
+            b.drop(c)
+        if rnd.random() < 0.5 or step == nops - 1:
+            bvm_observe(b, o, bits, rnd, light=(step != nops - 1))
+    # an independently collected vector with the same bits compares equal
+    ref = b.newb("BVM", "bools", Seqn.from_values(bits))
+    b.eq(o, ref)
+    if bits:
+        other = list(bits)
+        j = rnd.randrange(len(other))
+        other[j] ^= 1
+        r2 = b.newb("BVM", "bools", Seqn.from_values(other))
+        b.eq(o, r2)
+    bv = b.conv(o, "into_bv", keep=1)
+    bvm_observe(b, bv, bits, rnd, kind="BV")
+    refbv = b.newb("BV", rnd.choice(["bools", "from_bvm"]), Seqn.from_values(bits))
+    b.eq(bv, refbv)
+    return o, bits
+
+
+def camp_c08(rnd, tier):
+    b = Beh()
+    nh = 30 if tier == "quick" else 200
+    for h in range(nh):
+        b.reset()
+        bvm_history(b, rnd, rnd.choice([3, 6, 12]) if tier == "quick" else rnd.choice([6, 12, 40]), tier)
+    # documented panics leave the object untracked, never an alarm
+    b.reset()
+    o = b.newb("BVM", "bools", Seqn.from_values([1, 0, 1]))
+    b.mut(o, "set", a=[3, 1])
+    o = b.newb("BVM", "bools", Seqn.from_values([1, 0, 1]))
+    b.mut(o, "append_bits", a=[2], w=[0, 5])
+    o = b.newb("BVM", "bools", Seqn.from_values([1, 0, 1]))
+    b.mut(o, "set_bits", a=[2, 2], w=[0])
+    b.meta(o)
+    return b
